@@ -4,6 +4,15 @@ seeded/*/meta.json and seeded/RESULTS.md."""
 import json, glob, os, re
 
 NOTES = {
+ "C03-5": "missed by C03 at first (C19 caught it): emit row right after the Inner Ring went to somebody else; the ring member as a signer set",
+ "C05-5": "missed at first: grids on chains whose Inner Ring is larger than the Alphabet; preparatory puts are judged too",
+ "C06-5": "missed at first: epoch jumps by x256 (numbers whose encodings are byte shifts of one another)",
+ "C12-5": "missed at first: CNAME adds on a sub-name that is not registered itself",
+ "C14-6": "missed at first: valid signatures by members of the other placement vector in the symbol menu",
+ "C16-7": "missed at first: 256 legacy containers / accounts, one per first byte of the raw key",
+ "C17-6": "missed at first (needs 5 steps with two waits): dedicated two-ballot timing exploration to depth 6/8",
+ "C20-6": "setup of the estimations world refused first (harness error): the parts of a multi-part check now run independently, the configuration part reports it",
+ "C15-5": "consequential version mismatches collapsed into one violation",
  "C02-2": "C02 world was n=1: strengthened to n=3 with majority-signer ops",
  "C03-1": "preparation step refused: now reported as C03's 'required witness succeeds' clause",
  "C03-2": "row added for a live container without the meta flag",
